@@ -21,7 +21,7 @@ QUICK_CFGS = ["Uniq_quick.cfg", "Uniq_quick2.cfg"]
 THOROUGH_CFGS = ["Uniq_thorough.cfg", "Uniq_thorough2.cfg", "Uniq_thorough4.cfg", "Uniq_laws.cfg"]
 
 
-def run_replay(ctx, name, cases, level, runs, procs=8, par=4, extra=(), timeout=1500):
+def run_replay(ctx, name, cases, level, runs, procs=8, par=4, extra=(), timeout=2400):
     cf = ctx.path("cases_%s.ndjson" % name)
     rf = ctx.path("res_%s.ndjson" % name)
     vlib.write_ndjson(cf, cases)
@@ -63,13 +63,16 @@ def main(ctx):
     if ctx.replay:
         blob = json.load(open(ctx.replay))
         case = blob["case"]
-        if "recs" in case:      # a trace event: re-validate it
+        if "recs" in case:      # a trace event: run the same data set and configuration again (seeded), validate it
             tr = ctx.path("trace.ndjson")
-            vlib.write_ndjson(tr, [case])
+            ctx.harness(["record", "C06", "--out", tr, "--n", 1, "--opt", "jobseed=%d" % case["seed"],
+                         "--opt", "jobbin=%d" % (1 if case.get("level") == "bin" else 0),
+                         "--opt", "bindir=" + os.path.join(ctx.scratch, "bin"), "--opt", "distbatch=%d" % case.get("distbatch", 7)], timeout=900)
             events, rejects = ctx.trace_validate("UniqTrace", "UniqTrace.cfg", tr)
             for r in rejects:
-                ctx.violation("C06.trace.%s.%s" % (case.get("level", "?"), r["why"]), case.get("mode", ""),
-                              "recorded event rejected again (re-run the tier to re-record)", case)
+                ev = events[r["l"] - 1]
+                ctx.violation("C06.trace.%s.%s" % (ev["level"], r["why"]), "%s/%s" % (ev["op"], ev["mode"]),
+                              "re-run of the recorded data set (seed %d) rejected by UniqTrace: %s" % (ev["seed"], r["why"]), ev)
             return ctx.finish()
         level = (case.get("cfg") or {}).get("level", "lib")
         run_replay(ctx, "replay", [case], level, 1, procs=1, par=1, extra=["repeat=25"])
@@ -103,8 +106,9 @@ def main(ctx):
     for need in ("map", "map+val", "map+none+val", "none+val"):
         ctx.expect_vacuity("model bags of shape " + need, len(shapes.get(need, [])))
     if thorough:
-        lib_cases = allcases
-        runs, diskevery = 4, 16
+        # budget: at most 400 000 of the exported cases (seeded sample), 2 configurations each, one in 32 on disk
+        lib_cases = vlib.sample(ctx.rng, allcases, 400000)
+        runs, diskevery = 2, 32
     else:
         # a seeded sample, every shape class x option set represented
         by = {}
